@@ -92,6 +92,7 @@ RULEDOC = {
  'SA-STR': 'abstract interpretation of the name-mangling helpers: every derived identifier is accepted by the acceptance predicate of its level',
  'SA-STR.tool': 'collision renumbering in genisoimage returns legal names',
  'SA-SYM': 'a field emitted from attribute A by record() is parsed back into A by parse()',
+ 'SA-TAG': 'UDF tag discipline: identifier given to new() = identifier of the standard = identifier under which parse receives the tag; record() is tag.record(B)+B for one B; moving a descriptor updates its tag location',
  'SA-TERM': 'every loop reachable from open() matches a progress idiom with a positive lower bound',
  'SA-UNITS': 'GMT offsets are stored in the unit the standard prescribes for that field',
  'SA-VBM': 'validate-before-mutate: no persistent write precedes an explicit refusal on any path of a public mutator',
